@@ -203,6 +203,8 @@ func TestVerif_C16(t *testing.T) {
 		out = append(out, vfOp{Op: "mkds", Path: "/g/overflow", Type: "u8", Dims: []uint64{1}},
 			vfOp{Op: "mkgroup", Path: "/g/" + strings.Repeat("y", 120)},
 			vfOp{Op: "attr", Path: "/x", Name: "huge", Value: "s200"},
+			// the same on a name that exists already (size-changing overwrite that does not fit)
+			vfOp{Op: "attr", Path: "/x", Name: "f00", Value: "s200"}, vfOp{Op: "attr", Path: "/x", Name: "f01", Value: "str:230"},
 			vfOp{Op: "attr", Path: "/x", Name: strings.Repeat("N", 250), Value: "s40"},
 			vfOp{Op: "attr", Path: "/x", Name: "one-more", Value: "s40"},
 			vfOp{Op: "hardlink", Path: "/lx2", Target: "/x"}, vfOp{Op: "attr", Path: "/x", Name: "t", Value: "u8"})
